@@ -1527,4 +1527,27 @@ theorem proto_ok {p : Bytes} (h : IsProto p) : p ≠ [] ∧ (∀ c ∈ p, isSpac
   rcases h with h | h <;> subst h <;> exact ⟨by decide, by decide, by decide⟩
 
 
+
+
+theorem byte_case_facts : ∀ n, n < 256 →
+    toUpper (toLower (UInt8.ofNat n)) = toUpper (UInt8.ofNat n) ∧ toLower (toLower (UInt8.ofNat n)) = toLower (UInt8.ofNat n) ∧
+    toUpper (toUpper (UInt8.ofNat n)) = toUpper (UInt8.ofNat n) ∧ toLower (toUpper (UInt8.ofNat n)) = toLower (UInt8.ofNat n) := by
+  decide +kernel
+
+theorem byte_case (c : UInt8) :
+    toUpper (toLower c) = toUpper c ∧ toLower (toLower c) = toLower c ∧ toUpper (toUpper c) = toUpper c ∧ toLower (toUpper c) = toLower c := by
+  have := byte_case_facts c.toNat (UInt8.toNat_lt c)
+  simpa using this
+
+theorem capLoop_lower (b : Bool) (n : Bytes) : capLoop b (lowerAscii n) = capLoop b n := by
+  induction n generalizing b with
+  | nil => rfl
+  | cons c t ih =>
+    have h := byte_case c
+    cases b <;> simp [lowerAscii, capLoop, h.1, h.2.1] <;> exact ih _
+
+/-- header names are matched without regard to case -/
+theorem capitalized_lower (n : Bytes) : capitalized (lowerAscii n) = capitalized n := capLoop_lower true n
+
+
 end AslProofs.HttpFrame
